@@ -336,22 +336,7 @@ func runC11(c *Ctx) {
 	checkPartialAnywhere(c, "R11h")
 
 	// ---- R11e
-	if fi := c.Func("R11e", pMigrate, "", "FilesFromLastCheckpoint"); fi != nil {
-		info := fi.Info()
-		last := false
-		ast.Inspect(fi.Decl.Body, func(m ast.Node) bool {
-			ix, ok := m.(*ast.IndexExpr)
-			if !ok {
-				return true
-			}
-			// the index evaluates to len(<the indexed slice>) - 1 (locals assigned once are resolved: n := len(cks); cks[n-1])
-			if cn, k, ok := lenMinusConst(info, fi.Decl.Body, ix.Index, types.ExprString(ix.X), 0); ok && cn == 1 && k == -1 {
-				last = true
-			}
-			return true
-		})
-		c.Check("R11e", "FilesFromLastCheckpoint|takes the last checkpoint", fi.Decl.Pos(), last, "FilesFromLastCheckpoint must start from cks[len(cks)-1]")
-	}
+	checkLastCheckpoint(c, "R11e")
 	if fi := c.Func("R11e", pMigrate, "", "SkipCheckpointFiles"); fi != nil {
 		info := fi.Info()
 		ok := false
